@@ -149,7 +149,8 @@ structure State where
   store : List (String × List (String × String))   -- location ("shared" | worker id) ↦ states (vm, state)
   jobResults : List (String × String × String × Nat) := []   -- (name, uid, status, duration) as reported to the job
   nextTag : Nat := 1
-  hidden : List Nat := []                  -- composite nodes not parsed yet (lazy expansion); [] for pre-parsed graphs
+  hidden : List Nat := []                  -- composite nodes not parsed yet (lazy expansion) and, as `edgeCode`s, single edges that
+                                           -- do not exist yet between parsed nodes; [] for pre-parsed graphs
   incompatible : List (Nat × Nat) := []    -- (flat node, worker): composition failed (`incompatible_workers`)
 deriving Repr
 
